@@ -9,7 +9,7 @@ LEVEL = "exploration"
 RULE = (
     "sequences of 0-8 rows mixing accepted rows, rows with a rejected cell, rows with a wrong item count and duplicates "
     "(cells from the C02 pools, classified by M-field) written one by one through cutplace.Writer bound to delimited and "
-    "fixed CIDs with header 0-1, optional IsUnique and DistinctCount checks and every fixed line-delimiter setting. After "
+    "fixed CIDs (a sixth of them named by the path of a CID file) with header 0-1, optional IsUnique and DistinctCount checks and every fixed line-delimiter setting. After "
     "every write_row the stream is inspected: it must have grown by exactly the encoding of the row iff M-writer accepts "
     "the row; close() must fail iff the distinct-count model fails; the output is read back with cutplace.rows under a "
     "fresh CID and must be accepted completely and equal the written values (modulo fixed padding). A case is (CID, row "
@@ -67,11 +67,13 @@ def encode(model, row):
     return [text + {"lf": "\n", "cr": "\r", "crlf": "\r\n"}[ld]]
 
 
-def check_case(ctx, model, rows):
+def check_case(ctx, model, rows, cid_by_path=False):
+    import os
+
     import cutplace
     from cutplace import errors
 
-    case = {"cid": model.to_json(), "rows": rows}
+    case = {"cid": model.to_json(), "rows": rows, "cid_by_path": cid_by_path}
     try:
         cid = gen.load_cid(model)
     except errors.InterfaceError as error:
@@ -83,10 +85,21 @@ def check_case(ctx, model, rows):
     verdicts = []
     written = []
     try:
-        writer = cutplace.Writer(cid, target)
+        if cid_by_path:
+            # the writer is bound to the CID by the path of the CID, like readers can be
+            cid_path = os.path.join(ctx.tmp, "cid_c14.csv")
+            with open(cid_path, "w", encoding="utf-8", newline="") as f:
+                f.write(storage.delimited_text(model.cid_rows()))
+            writer = cutplace.Writer(cid_path, target)
+            ctx.count("writers.bound-by-cid-path")
+        else:
+            writer = cutplace.Writer(cid, target)
     except Exception as error:
+        from cpverif import core
+
+        mod, fn = core.innermost_cutplace_frame(error)
         ctx.case(case, True)
-        ctx.violation("C14:writer-crash:%s" % type(error).__name__, case, "creating the writer failed", observed=error)
+        ctx.violation("C14:writer-crash:%s@%s.%s" % (type(error).__name__, mod, fn), case, "creating the writer failed", observed=error)
         return
     n_written = 0
     unjudged = False
@@ -216,8 +229,8 @@ def run(ctx):
         rng = ctx.rng("case", i)
         kind = "delimited" if i % 2 == 0 else "fixed"
         model, rows = gen_case(rng, kind)
-        check_case(ctx, model, rows)
+        check_case(ctx, model, rows, cid_by_path=(i % 6 == 5))
 
 
 def replay(ctx, case):
-    check_case(ctx, RM.CidModel.from_json(case["cid"]), case["rows"])
+    check_case(ctx, RM.CidModel.from_json(case["cid"]), case["rows"], case.get("cid_by_path", False))
